@@ -15,7 +15,7 @@ use tokio::net::TcpStream;
 
 fn answers(pattern: &str, k: u32) -> bool {
     match pattern {
-        "never" => false,
+        "never" | "capnever" => false,
         "stops1" => k <= 1,
         "stops2" => k <= 2,
         _ => true,
@@ -134,6 +134,10 @@ async fn run_point(ping: u64, pong: u64, pattern: String, port: u16, window_s: u
             _ => return json!({"ping": ping, "pong": pong, "pattern": pattern, "error": "no welcome"}),
         }
     }
+    if pattern == "capnever" {
+        // a capability negotiation re-opened after registration and never closed
+        wr.write_all(b"CAP REQ :multi-prefix\r\n").await.ok();
+    }
     // the client's own PING must be answered with the same token
     wr.write_all(b"PING mytoken42\r\n").await.ok();
     let mut events: Vec<Value> = vec![];
@@ -214,9 +218,9 @@ pub fn main(args: &[String]) -> i32 {
         vec![(1, 1), (1, 2), (2, 1), (1, 3), (2, 2)]
     };
     let patterns: Vec<&str> = if grid == "thorough" {
-        vec!["always", "never", "stops1", "stops2", "late1", "retry"]
+        vec!["always", "never", "stops1", "stops2", "late1", "retry", "capnever"]
     } else {
-        vec!["always", "never", "stops1", "late1", "retry"]
+        vec!["always", "never", "stops1", "late1", "retry", "capnever"]
     };
     let rt = runtime(8);
     let results = rt.block_on(async {
@@ -229,7 +233,7 @@ pub fn main(args: &[String]) -> i32 {
                     continue;
                 }
                 let k = match *pat {
-                    "never" => 1,
+                    "never" | "capnever" => 1,
                     "stops1" => 2,
                     "stops2" => 3,
                     _ => 3,
